@@ -33,7 +33,7 @@ CLAIMS = {
     "C02": {
         "text": "All 3840 consulted cells of the transition function compared with the reference machine, every callback (with arguments) compared event-for-event on bounded-exhaustive strings and seeded grammar streams that exercise the 32/2/16/65535 limits, CAN/SUB replay from every state, a clone of the parser taken at any point continues like the original, and the iterator adapters of every dispatched parameter list agree with plain iteration.  Exploration: exhaustive for the finite table, sampled for the unbounded stream space.",
         "design_ref": "7 C02, 3.1, 8.2, 8.3",
-        "note": "trusts refmodel::vt; UTF-8 decoding follows the utf8parse contract the crate documents as out of band",
+        "note": "trusts refmodel::vt; for a byte that cuts a multi-byte character short both decoder policies are accepted, and for OSC strings with more than 16 fields the 16th parameter only has to begin with the 16th field (neither is settled by the statement)",
         "technique": RM + "; exhaustive table-cell comparison",
     },
     "C03": {
@@ -79,7 +79,7 @@ CLAIMS = {
         "technique": RM + " (exhaustive over 2^24 colours in the thorough tier)",
     },
     "C11": {
-        "text": "Accept/reject, denotation, error variant and payload compared with an independent recogniser on exhaustive word combinations, hex near-misses (incl. signs and non-ASCII), single-edit mutations, words glued together or behind doubled negation prefixes, seeded sentences and arbitrary Unicode; print/parse round trip for every expressible style sampled.",
+        "text": "Accept/reject, denotation, error variant and the word the error names compared with an independent recogniser (with several offending words any of them may be the one reported) on exhaustive word combinations, hex near-misses (incl. signs and non-ASCII), single-edit mutations, words glued together or behind doubled negation prefixes, seeded sentences and arbitrary Unicode; print/parse round trip for every expressible style sampled.",
         "design_ref": "7 C11, 3.4, 8.6",
         "note": "inputs whose meaning the statement leaves open are checked for panics only",
         "technique": RM,
